@@ -48,7 +48,8 @@ def run(chk):
         return out
 
     ok = chk.check_theorems()
-    rc.run_runner_check(chk, "C15", "proj_C15", OPTS, extra_oracle=twin_oracle, theorems_ok=ok)
+    rc.run_runner_check(chk, "C15", "proj_C15", OPTS, extra_oracle=twin_oracle, theorems_ok=ok,
+                        extra_seqs=rc.long_run_sequences(chk.rng, OPTS, n=2 if chk.tier == "quick" else 12))
     chk.coverage["hook_fault_scripts_compared_with_silent_twin"] = info.get("faulty", 0)
     chk.coverage["silent_twin_differences"] = info.get("diffs", 0)
     # the breaker events emitted by Policy (policy_helpers._emit_breaker_event) with raising hooks: full trace against the
